@@ -56,6 +56,12 @@ pub fn module(log: Log) -> RpcModule<()> {
 	})
 	.unwrap();
 	let l = log.clone();
+	m.register_method("rpc.e", move |p, _, _| {
+		l.lock().unwrap().push(("rpc.e".into(), ptxt(&p)));
+		p.parse::<Box<RawValue>>()
+	})
+	.unwrap();
+	let l = log.clone();
 	m.register_async_method("a_echo", move |p, _, _| {
 		let l = l.clone();
 		async move {
